@@ -43,11 +43,11 @@ Lemma mapping_usedb_sound : forall T m, mapping_usedb T m = true -> mapping_used
 Proof.
   intros T m H. unfold mapping_usedb in H. apply existsb_exists in H as [g [Hin H]].
   destruct (N.eqb (g_ver g) (m_ver m)) eqn:H1; [|discriminate].
-  destruct (String.eqb (g_struct g) (m_gstruct m)) eqn:H2; [|discriminate].
+  destruct (N.eqb (g_struct g) (m_gstruct m)) eqn:H2; [|discriminate].
   exists g. repeat split; auto.
   - now apply N.eqb_eq.
-  - now apply String.eqb_eq.
-  - now apply String.eqb_eq.
+  - now apply N.eqb_eq.
+  - now apply N.eqb_eq.
 Qed.
 
 (* complete enumeration of a finite table is a proof of the universally quantified statement *)
@@ -62,18 +62,19 @@ Lemma in_totals_of : forall ver l t, In t l -> t_ver t = ver -> In t (totals_of 
 Proof. intros ver l t Hin Hv. unfold totals_of. apply filter_In. split; auto. now apply N.eqb_eq. Qed.
 
 (* the oracles are not vacuous: a consistent two-row example is accepted, a shifted one is not *)
+(* names: 1 = "s", 2 = "a", 3 = "b", 10 = "G", 11 = "A", 12 = "B", 13 = "unmapped", 20 = "len(G)" *)
 Example ex_tables : tables := Tables
-  [CRow 4 "s" "a" 0 32; CRow 4 "s" "b" 32 16]
-  [GRow 4 "G" "A" 0 8; GRow 4 "G" "B" 32 16]
-  [MRow 4 "G" "A" "s" ["a"] Prefix; MRow 4 "G" "B" "s" ["b"] Exact]
-  [TRow 4 "s" 8] [TRow 4 "len(G)" 8] [TMRow 4 "len(G)" "s" false].
+  [CRow 4 1 2 0 32; CRow 4 1 3 32 16]
+  [GRow 4 10 11 0 8; GRow 4 10 12 32 16]
+  [MRow 4 10 11 1 [2] Prefix; MRow 4 10 12 1 [3] Exact]
+  [TRow 4 1 8] [TRow 4 20 8] [TMRow 4 20 1 false].
 Example ex_ok : forallb (offset_okb ex_tables) (T_g ex_tables) = true
              /\ forallb (size_okb ex_tables) (T_g ex_tables) = true
              /\ forallb (total_okb ex_tables) (T_gtot ex_tables) = true.
 Proof. vm_compute. auto. Qed.
-Example ex_shifted_rejected : offset_okb ex_tables (GRow 4 "G" "B" 40 16) = false
-                           /\ size_okb ex_tables (GRow 4 "G" "B" 32 8) = false
-                           /\ offset_okb ex_tables (GRow 4 "G" "unmapped" 0 8) = false.
+Example ex_shifted_rejected : offset_okb ex_tables (GRow 4 10 12 40 16) = false
+                           /\ size_okb ex_tables (GRow 4 10 12 32 8) = false
+                           /\ offset_okb ex_tables (GRow 4 10 13 0 8) = false.
 Proof. vm_compute. auto. Qed.
 
 (* completeness: used to REFUTE the property on a concrete row (a finding) *)
